@@ -1048,8 +1048,10 @@ def _name_reused(path, hist):
     if i0 is None:
         return False
     for op, pace in ops[i0 + 1:]:
-        dest = op[2] if op[0] == "rename" else (op[1] if op[0] in ("mknod", "mkdir", "move_in_file", "move_in_dir") else None)
-        if dest == p:
+        dests = {op[2]} if op[0] in ("rename", "move_back") else (
+            {op[1]} if op[0] in ("mknod", "mkdir", "move_in_file", "move_in_dir") else (
+                {op[1], parent(op[1])} if op[0] == "makedirs" else (set(MKTREE) if op[0] == "mktree" else set())))
+        if p in dests:
             return True
         if pace in ("drain", "drain-soft"):
             break
@@ -1575,6 +1577,8 @@ def single_op_deviation_search(ctx, checks, *, tier, bound=None):
             deep = op[0] == "rename"
             jobs.append((H(t, b, cfg), bound or ((2 if deep else 1) if q else (3 if deep else 2))))
     ctx.explore_many(jobs, cap=400_000 if q else 8_000_000, selftest=False, workers=fs_workers(ctx))
+    continue_from_suspicious(ctx, checks, take_suspicious(ctx), Config(early=False, split_reads=True, probes=True, outside_ops=False),
+                             depth=2, cap=40_000 if q else 400_000, label="continuation(single-op)")
 
 
 STRUCTURAL = ("mkdir", "makedirs", "rmdir", "rmtree", "rename", "move_out", "move_in_dir")
@@ -1632,6 +1636,10 @@ def vanish_search(ctx, checks, *, tier):
 
                 rec(m2, [], 2 if q else 3)
     ctx.explore_many(jobs, cap=300_000 if q else 6_000_000, selftest=False, workers=fs_workers(ctx))
+    # under unrestricted pacing an inconsistent watch map is common (names re-used faster than they are processed):
+    # the seeds are continued with single operations like everywhere else, but with a small budget
+    continue_from_suspicious(ctx, checks, take_suspicious(ctx)[:200], cfg, depth=1 if q else 2, cap=20_000 if q else 200_000,
+                             respect_pacing=False, label="continuation(vanish)")
 
 
 # =================================================================================================
